@@ -224,6 +224,12 @@ def scm_set_changes():
     if log and str(log[-1]).startswith('(project does not'): log = ['(setup: %s)' % log[-1]]
     return w, log
 
+def url_switch():
+    from replay import C01
+    w, log = C01.directed_url_switch('dev', kind='untouched-workspace-differs-from-fresh-checkout')
+    if log and str(log[-1]).startswith('(project does not'): log = ['(setup: %s)' % log[-1]]
+    return w, log
+
 def replay(rep):
     import concurrent.futures as cf
     seed = int(os.environ.get('VERIF_SEED', '0') or 0)
@@ -231,7 +237,7 @@ def replay(rep):
     n = 40 if thorough else 10; steps = 8 if thorough else 6
     tried = 0; distinct = set(); samples = []; problems = 0
     with cf.ThreadPoolExecutor(max_workers=8) as ex:
-        futs = [ex.submit(directed_branch_switch), ex.submit(directed_new_scm_over_user_files), ex.submit(scm_set_changes)] + [ex.submit(one_case, seed * 1000 + i, steps) for i in range(n)]
+        futs = [ex.submit(directed_branch_switch), ex.submit(directed_new_scm_over_user_files), ex.submit(scm_set_changes), ex.submit(url_switch)] + [ex.submit(one_case, seed * 1000 + i, steps) for i in range(n)]
         for f in cf.as_completed(futs):
             w, log = f.result(); tried += 1
             if log and (str(log[-1]).startswith('harness problem') or str(log[-1]).startswith('(setup')): problems += 1; samples.append({'problem': log[-1]}) if len(samples) < 3 else None; continue
@@ -240,5 +246,5 @@ def replay(rep):
             if w is not None: return {'reproduced': True, 'tried': tried, 'witness': w}
     if problems > tried // 2: return {'reproduced': None, 'detail': 'harness problems in %d of %d cases: %s' % (problems, tried, samples[:2])}
     return {'reproduced': False, 'tried': tried, 'distinct': len(distinct), 'samples': samples,
-            'bound': 'directed branch-switch scenario (3 variants), new SCM over a directory with user files (git, import), SCM set changes (remove/move/if/add back) + %d generated histories of %d operations over one git upstream (2 branches, 2 tags): recipe SCM edits, upstream commits, 5 kinds of user work, bob dev / --clean-checkout / clean -s; url/import/svn SCMs and nested SCMs are not generated' % (n, steps),
+            'bound': 'directed branch-switch scenario (3 variants), new SCM over a directory with user files (git, import), SCM set changes (remove/move/if/add back), url SCM url changes + %d generated histories of %d operations over one git upstream (2 branches, 2 tags): recipe SCM edits, upstream commits, 5 kinds of user work, bob dev / --clean-checkout / clean -s; url/import/svn SCMs and nested SCMs are not generated' % (n, steps),
             'detail': 'every user commit stayed reachable from a ref and every user file survived (in place or attic); untouched workspaces equalled fresh checkouts'}
